@@ -1,12 +1,14 @@
 /-
-  OFV.Lemmas.RTHello — hello elements and Hello through Parse: the version-bitmap decoder consumes every 32-bit word up to
-  the end of its buffer (`helloElem_decode`), so a Hello with exactly one element round-trips (`hello_one_rt`) and nothing
-  else does.  Used by OFV/Props/C05.lean.
+  OFV.Lemmas.RTHello — hello elements and Hello through Parse: the version-bitmap decoder reads the bitmaps up to the
+  element's own Length (`helloElem_decode`), the element loop advances by the Length rounded up to 8 (`hello_loop`);
+  a Hello with any number of version-bitmap elements round-trips when every element but the last has a Length that
+  is a multiple of 8 (`hello_rt`).  Used by OFV/Props/C05.lean.
 -/
 import OFV.Model.All
 import OFV.Lemmas.Size
 import OFV.Lemmas.RTBasic
 import OFV.Lemmas.RTMsg
+import OFV.Lemmas.RTMatch
 namespace OFV.RT
 set_option linter.unusedSimpArgs false
 open OFV OFV.Go OFV.Model
@@ -21,82 +23,87 @@ theorem wordsBytes_length (ws : List Nat) : (wordsBytes ws).length = 4 * ws.leng
     simp only [wordsBytes, List.map_cons, List.flatten_cons, List.length_append, be32_length, List.length_cons] at ih ⊢
     omega
 
-/-- the bitmap loop of HelloElemVersionBitmap.UnmarshalBinary: it consumes every 32-bit word up to the END OF THE BUFFER -/
-theorem bitmap_loop (data : Slice) (hd : data.WF) (ws : List Nat) (hws : ∀ w ∈ ws, w < 4294967296) :
+/-- the bitmap loop of HelloElemVersionBitmap.UnmarshalBinary: it reads the 32-bit words up to the element's Length -/
+theorem bitmap_loop (data : Slice) (hd : data.WF) (length : Nat) (rest : Bytes) (ws : List Nat)
+    (hws : ∀ w ∈ ws, w < 4294967296) :
     ∀ (pre : Bytes) (acc : List V) (fuel : Nat),
-      data.bytes = pre ++ wordsBytes ws → ws.length < fuel →
-      goLoop (σ := HelloElemVersionBitmap.St) fuel (fun s => s.read < data.len) (·.read)
+      data.bytes = pre ++ wordsBytes ws ++ rest → length = pre.length + 4 * ws.length → ws.length < fuel →
+      goLoop (σ := HelloElemVersionBitmap.St) fuel (fun s => s.read + 4 ≤ length) (·.read)
         (fun s => do
           let w ← data.u32In s.read (s.read + 4)
           pure { read := s.read + 4, bms := s.bms ++ [V.u32 w] })
         { read := pre.length, bms := acc }
-      = .ok { read := data.len, bms := acc ++ ws.map V.num } := by
+      = .ok { read := length, bms := acc ++ ws.map V.num } := by
   induction ws with
   | nil =>
-    intro pre acc fuel hb hfuel
-    have hl : data.len = pre.length := by
-      rw [← Slice.bytes_length data hd, hb]; simp [wordsBytes]
+    intro pre acc fuel hb hl hfuel
+    simp at hl
+    subst hl
     cases fuel with
     | zero => simp at hfuel
-    | succ k => simp [goLoop, hl]
+    | succ k =>
+      unfold goLoop
+      have hc : decide (pre.length + 4 ≤ pre.length) = false := by simp
+      simp only [hc, Bool.false_eq_true, if_false, List.map_nil, List.append_nil]
   | cons w ws ih =>
-    intro pre acc fuel hb hfuel
+    intro pre acc fuel hb hl hfuel
     have hw := hws w (by simp)
-    have hl : data.len = pre.length + 4 * (w :: ws).length := by
-      rw [← Slice.bytes_length data hd, hb, List.length_append, wordsBytes_length]
-    simp only [List.length_cons] at hl
+    have hlen := Slice.bytes_length_le data
+    rw [hb] at hlen
+    simp only [List.length_append, wordsBytes_length, List.length_cons] at hlen hl
     cases fuel with
     | zero => simp at hfuel
     | succ k =>
       have e : rd32 ((data.bytes.drop pre.length).take (pre.length + 4 - pre.length)) = some (n32 w) := by
-        rw [hb, List.drop_left' rfl]
+        rw [hb, List.append_assoc, List.drop_left' rfl]
         have : pre.length + 4 - pre.length = 4 := by omega
         rw [this]
-        simp only [wordsBytes, List.map_cons, List.flatten_cons]
+        simp only [wordsBytes, List.map_cons, List.flatten_cons, List.append_assoc]
         rw [take_be32]; exact rd32_be32' _
       unfold goLoop
-      have hcond : decide (pre.length < data.len) = true := by simp; omega
+      have hcond : decide (pre.length + 4 ≤ length) = true := by simp; omega
       simp only [hcond, if_true, Slice.u32In_eq data hd pre.length (pre.length + 4) (by omega) (by omega), e, Res.ofOption,
         Res.bind_ok, Res.pure_eq, u32_n32 w hw]
       have hcur : ¬ (pre.length + 4 ≤ pre.length) := by omega
       simp only [hcur, if_false]
       have := ih (fun x hx => hws x (by simp [hx])) (pre ++ be32 (n32 w)) (acc ++ [V.num w]) k
-        (by rw [hb]; simp [wordsBytes]) (by simp only [List.length_cons] at hfuel; omega)
+        (by rw [hb]; simp [wordsBytes]) (by simp only [List.length_append, be32_length]; omega)
+        (by simp only [List.length_cons] at hfuel; omega)
       simp only [List.length_append, be32_length, List.append_assoc, List.cons_append, List.nil_append] at this
       simp only [List.map_cons]
       exact this
 
-/-- HelloElemVersionBitmap.UnmarshalBinary on an element header followed by ANY words `ws`: all of them become bitmaps -/
-theorem helloElem_decode (recv : V) (data : Slice) (hd : data.WF) (t l : Nat) (ht : t < 65536) (hl : l < 65536)
-    (ws : List Nat) (hws : ∀ w ∈ ws, w < 4294967296)
-    (hb : data.bytes = be16 (n16 t) ++ be16 (n16 l) ++ wordsBytes ws) :
+/-- HelloElemVersionBitmap.UnmarshalBinary on an element (Length = 4 + 4·#bitmaps) followed by anything -/
+theorem helloElem_decode (recv : V) (data : Slice) (hd : data.WF) (t : Nat) (ht : t < 65536)
+    (ws : List Nat) (hws : ∀ w ∈ ws, w < 4294967296) (hl : 4 + 4 * ws.length < 65536) (rest : Bytes)
+    (hb : data.bytes = be16 (n16 t) ++ be16 (n16 (4 + 4 * ws.length)) ++ wordsBytes ws ++ rest) :
     HelloElemVersionBitmap.unmarshal recv data =
-      .ok (.obj "HelloElemVersionBitmap" [.obj "HelloElemHeader" [.num t, .num l], .list (ws.map V.num)]) := by
-  have hlen : data.len = 4 + 4 * ws.length := by
-    rw [← Slice.bytes_length data hd, hb]
-    simp only [List.length_append, be16_length, wordsBytes_length]
+      .ok (.obj "HelloElemVersionBitmap" [.obj "HelloElemHeader" [.num t, .num (4 + 4 * ws.length)], .list (ws.map V.num)]) := by
+  have hlen := Slice.len_ge_of_bytes data _ _ hb
+  simp only [List.length_append, be16_length, wordsBytes_length] at hlen
   unfold HelloElemVersionBitmap.unmarshal
   obtain ⟨d4, h41, h42, h43⟩ := Slice.uptoR_bytes data hd 4 (by omega)
   have hd4 : d4.WF := (Slice.sliceR_wf data 0 4 d4 h41).1
-  have hd4b : d4.bytes = be16 (n16 t) ++ be16 (n16 l) := by
+  have hd4b : d4.bytes = be16 (n16 t) ++ be16 (n16 (4 + 4 * ws.length)) := by
     rw [h42, hb]; simp only [List.append_assoc]; rfl
   have e0 : rd16 ((d4.bytes.drop 0).take (2 - 0)) = some (n16 t) := by rw [hd4b]; exact rd16_be16' _
-  have e2 : rd16 ((d4.bytes.drop 2).take (4 - 2)) = some (n16 l) := by
+  have e2 : rd16 ((d4.bytes.drop 2).take (4 - 2)) = some (n16 (4 + 4 * ws.length)) := by
     rw [hd4b]
-    have : (List.drop 2 (be16 (n16 t) ++ be16 (n16 l))).take (4 - 2) = be16 (n16 l) := rfl
+    have : (List.drop 2 (be16 (n16 t) ++ be16 (n16 (4 + 4 * ws.length)))).take (4 - 2) = be16 (n16 (4 + 4 * ws.length)) := rfl
     rw [this]; exact rd16_be16' _
-  have hhdr : ∀ r, HelloElemHeader.unmarshal r d4 = .ok (.obj "HelloElemHeader" [.num t, .num l]) := by
+  have hhdr : ∀ r, HelloElemHeader.unmarshal r d4 = .ok (.obj "HelloElemHeader" [.num t, .num (4 + 4 * ws.length)]) := by
     intro r
     unfold HelloElemHeader.unmarshal
     rw [if_neg (by omega)]
     simp only [Slice.u16In_eq d4 hd4 0 2 (by omega) (by omega), Slice.u16In_eq d4 hd4 2 4 (by omega) (by omega), e0, e2,
-      Res.ofOption, Res.bind_ok, Res.pure_eq, u16_n16 t ht, u16_n16 l hl]
-  have hloop := bitmap_loop data hd ws hws (be16 (n16 t) ++ be16 (n16 l)) [] (data.len + 1) hb (by omega)
+      Res.ofOption, Res.bind_ok, Res.pure_eq, u16_n16 t ht, u16_n16 _ hl]
+  have hloop := bitmap_loop data hd (4 + 4 * ws.length) rest ws hws (be16 (n16 t) ++ be16 (n16 (4 + 4 * ws.length))) []
+    (data.len + 1) hb (by simp only [List.length_append, be16_length]) (by omega)
   simp only [List.length_append, be16_length, List.nil_append, Nat.reduceAdd] at hloop
   simp only [h41, Res.bind_ok, hhdr]
+  rw [if_neg (by omega)]
   erw [hloop]
   rfl
-
 
 theorem helloElemHeader_unmarshal (recv : V) (data : Slice) (hd : data.WF) (t l : Nat) (ht : t < 65536) (hl : l < 65536)
     (rest : Bytes) (hb : data.bytes = be16 (n16 t) ++ be16 (n16 l) ++ rest) :
@@ -168,60 +175,187 @@ theorem helloElem_encode (t l : Nat) (ws : List Nat) (hk : 4 + 4 * ws.length < 6
   simp only [hlen, Res.bind_ok, hto, this, same]
 
 
-def helloElemV (l : Nat) (ws : List Nat) : V :=
-  .obj "HelloElemVersionBitmap" [.obj "HelloElemHeader" [.num 1, .num l], .list (ws.map V.num)]
-def helloV (ver ln xid l : Nat) (ws : List Nat) : V :=
-  .obj "Hello" [.obj "Header" [.num ver, .num 0, .num ln, .num xid], .list [helloElemV l ws]]
+/-- a version-bitmap element with bitmaps `ws` and the matching Length 4 + 4·#ws -/
+def helloElemV (ws : List Nat) : V :=
+  .obj "HelloElemVersionBitmap" [.obj "HelloElemHeader" [.num 1, .num (4 + 4 * ws.length)], .list (ws.map V.num)]
+def helloElemBytes (ws : List Nat) : Bytes := be16 (n16 1) ++ be16 (n16 (4 + 4 * ws.length)) ++ wordsBytes ws
+def helloV (ver ln xid : Nat) (wss : List (List Nat)) : V :=
+  .obj "Hello" [.obj "Header" [.num ver, .num 0, .num ln, .num xid], .list (wss.map helloElemV)]
+def helloBody (wss : List (List Nat)) : Bytes := (wss.map helloElemBytes).flatten
 
-/-- Hello with ONE version-bitmap element through Parse, the buffer holding exactly the message -/
-theorem hello_one_rt (ver xid l : Nat) (ws : List Nat) (hver : ver < 256) (hxid : xid < 4294967296) (hl : l < 65536)
-    (hws : ∀ w ∈ ws, w < 4294967296) (hk : 12 + 4 * ws.length < 65536) :
-    let bs := [n8 ver, n8 0] ++ be16 (n16 (12 + 4 * ws.length)) ++ be32 (n32 xid) ++ (be16 (n16 1) ++ be16 (n16 l) ++ wordsBytes ws)
-    (∀ ln0, Hello.marshalM (helloV ver ln0 xid l ws) = .ok (bs, helloV ver (12 + 4 * ws.length) xid l ws)) ∧
+theorem helloElemBytes_length (ws : List Nat) : (helloElemBytes ws).length = 4 + 4 * ws.length := by
+  simp only [helloElemBytes, List.length_append, be16_length, wordsBytes_length]
+
+/-- every element except the last has a Length that is a multiple of 8 (an odd number of bitmaps): the encoder does not pad,
+    the decoder advances by the Length rounded up to 8 -/
+def PadOK : List (List Nat) → Prop
+  | [] => True
+  | [_] => True
+  | ws :: rest => (4 + 4 * ws.length) % 8 = 0 ∧ PadOK rest
+
+def ElemsOK (wss : List (List Nat)) : Prop := ∀ ws ∈ wss, (∀ w ∈ ws, w < 4294967296) ∧ 4 + 4 * ws.length < 65536
+
+theorem body_len_ge (wss : List (List Nat)) : 4 * wss.length ≤ (helloBody wss).length := by
+  induction wss with
+  | nil => simp [helloBody]
+  | cons ws rest ih =>
+    simp only [helloBody, List.map_cons, List.flatten_cons, List.length_append, helloElemBytes_length, List.length_cons] at ih ⊢
+    omega
+
+/-- the element loop of Hello.UnmarshalBinary, the buffer ending with the last element -/
+theorem hello_loop (data : Slice) (hd : data.WF) (wss : List (List Nat)) :
+    ∀ (pre : Bytes) (acc : List V) (fuel : Nat),
+      data.bytes = pre ++ helloBody wss → ElemsOK wss → PadOK wss → wss.length < fuel →
+      ∃ n, goLoop (σ := Hello.St) fuel (fun s => s.next < data.len) (·.next)
+        (fun s => do
+          let d ← data.fromR s.next
+          let e ← HelloElemHeader.unmarshal HelloElemHeader.new d
+          match e with
+          | .obj _ [.num ty, .num elen] =>
+            if elen < 4 then .err else
+            let adv := (elen + 7) / 8 * 8
+            if ty = 1 then do
+              let v ← HelloElemVersionBitmap.unmarshal HelloElemVersionBitmap.new d
+              pure { next := s.next + adv, elems := s.elems ++ [v], err := false }
+            else .ok { s with next := s.next + adv }
+          | _ => .panic)
+        { next := pre.length, elems := acc, err := false }
+      = .ok { next := n, elems := acc ++ wss.map helloElemV, err := false } := by
+  induction wss with
+  | nil =>
+    intro pre acc fuel hb _ _ hfuel
+    have hl : data.len = pre.length := by
+      rw [← Slice.bytes_length data hd, hb]; simp [helloBody]
+    cases fuel with
+    | zero => simp at hfuel
+    | succ k => exact ⟨pre.length, by simp [goLoop, hl]⟩
+  | cons ws rest ih =>
+    intro pre acc fuel hb hok hpad hfuel
+    obtain ⟨hws, hk⟩ := hok ws (by simp)
+    have hl : data.len = pre.length + ((4 + 4 * ws.length) + (helloBody rest).length) := by
+      rw [← Slice.bytes_length data hd, hb]
+      simp only [helloBody, List.map_cons, List.flatten_cons, List.length_append, helloElemBytes_length]
+    cases fuel with
+    | zero => simp at hfuel
+    | succ k =>
+      obtain ⟨d, hd1, hd2, _, _⟩ := Slice.fromR_bytes data pre.length (by omega)
+      have hdwf : d.WF := (Slice.fromR_wf data hd _ d hd1).1
+      have hdb : d.bytes = be16 (n16 1) ++ be16 (n16 (4 + 4 * ws.length)) ++ wordsBytes ws ++ helloBody rest := by
+        rw [hd2, hb, List.drop_left' rfl]
+        simp only [helloBody, List.map_cons, List.flatten_cons, helloElemBytes]
+      have hEH := helloElemHeader_unmarshal HelloElemHeader.new d hdwf 1 (4 + 4 * ws.length) (by decide) hk
+        (wordsBytes ws ++ helloBody rest) (by rw [hdb]; simp only [List.append_assoc])
+      have hEV := helloElem_decode HelloElemVersionBitmap.new d hdwf 1 (by decide) ws hws hk (helloBody rest) hdb
+      unfold goLoop
+      have hc1 : decide (pre.length < data.len) = true := by simp; omega
+      have hlt : ¬ (4 + 4 * ws.length < 4) := by omega
+      simp only [hc1, if_true, hd1, Res.bind_ok, hEH, hlt, if_false, hEV, Res.pure_eq]
+      have hcur : ¬ (pre.length + (4 + 4 * ws.length + 7) / 8 * 8 ≤ pre.length) := by omega
+      simp only [hcur, if_false]
+      cases rest with
+      | nil =>
+        -- last element: the cursor reaches or passes the end of the buffer
+        cases k with
+        | zero => simp at hfuel
+        | succ k' =>
+          refine ⟨pre.length + (4 + 4 * ws.length + 7) / 8 * 8, ?_⟩
+          unfold goLoop
+          have hc2 : decide (pre.length + (4 + 4 * ws.length + 7) / 8 * 8 < data.len) = false := by
+            simp [helloBody] at hl ⊢; omega
+          simp only [hc2, Bool.false_eq_true, if_false, List.map_cons, List.map_nil, helloElemV]
+      | cons ws2 rest2 =>
+        have hp : (4 + 4 * ws.length) % 8 = 0 ∧ PadOK (ws2 :: rest2) := hpad
+        have hadv : (4 + 4 * ws.length + 7) / 8 * 8 = 4 + 4 * ws.length := by omega
+        rw [hadv]
+        obtain ⟨n, hn⟩ := ih (pre ++ helloElemBytes ws) (acc ++ [helloElemV ws]) k
+          (by rw [hb]; simp [helloBody]) (fun x hx => hok x (by simp [hx])) hp.2
+          (by simp only [List.length_cons] at hfuel ⊢; omega)
+        refine ⟨n, ?_⟩
+        simp only [List.length_append, helloElemBytes_length, List.append_assoc, List.cons_append, List.nil_append] at hn
+        simp only [List.map_cons, helloElemV] at hn ⊢
+        exact hn
+
+theorem hello_mapM2 (wss : List (List Nat)) (hok : ElemsOK wss) :
+    mapM2 HelloElem.lenM (wss.map helloElemV) =
+      .ok ((wss.map helloElemBytes).map (fun e => UInt16.ofNat e.length), wss.map helloElemV) ∧
+    mapM2 HelloElem.marshalM (wss.map helloElemV) = .ok (wss.map helloElemBytes, wss.map helloElemV) := by
+  induction wss with
+  | nil => exact ⟨rfl, rfl⟩
+  | cons ws rest ih =>
+    obtain ⟨_, hk⟩ := hok ws (by simp)
+    obtain ⟨i1, i2⟩ := ih (fun x hx => hok x (by simp [hx]))
+    obtain ⟨hem, hel⟩ := helloElem_encode 1 (4 + 4 * ws.length) ws hk
+    constructor
+    · simp only [List.map_cons, mapM2, HelloElem.lenM, helloElemV, V.kind, HelloElemVersionBitmap.lenM, hel, Res.bind_ok,
+        same, Res.pure_eq]
+      rw [i1]
+      simp only [Res.bind_ok, helloElemBytes_length]
+    · simp only [List.map_cons, mapM2, HelloElem.marshalM, helloElemV, V.kind, hem, Res.bind_ok, Res.pure_eq]
+      rw [i2]
+      simp only [Res.bind_ok, helloElemBytes]
+
+theorem body_sum (wss : List (List Nat)) (hok : ElemsOK wss) :
+    (((wss.map helloElemBytes).map (fun e => UInt16.ofNat e.length)).map UInt16.toNat).sum = (helloBody wss).length := by
+  induction wss with
+  | nil => rfl
+  | cons ws rest ih =>
+    obtain ⟨_, hk⟩ := hok ws (by simp)
+    have hto : (UInt16.ofNat (helloElemBytes ws).length).toNat = (helloElemBytes ws).length := by
+      rw [helloElemBytes_length]; simp [UInt16.toNat_ofNat']; omega
+    simp only [List.map_cons, List.sum_cons, helloBody, List.flatten_cons, List.length_append, hto]
+    rw [ih (fun x hx => hok x (by simp [hx]))]
+    rfl
+
+/-- Hello with any number of version-bitmap elements through Parse, the buffer holding exactly the message -/
+theorem hello_rt (ver xid : Nat) (wss : List (List Nat)) (hver : ver < 256) (hxid : xid < 4294967296)
+    (hok : ElemsOK wss) (hpad : PadOK wss) (hk : 8 + (helloBody wss).length < 65536) :
+    let bs := [n8 ver, n8 0] ++ be16 (n16 (8 + (helloBody wss).length)) ++ be32 (n32 xid) ++ helloBody wss
+    (∀ ln0, Hello.marshalM (helloV ver ln0 xid wss) = .ok (bs, helloV ver (8 + (helloBody wss).length) xid wss)) ∧
     ∀ (depth : Nat) (data : Slice), data.WF → data.bytes = bs →
-      parse depth data = .ok (helloV ver (12 + 4 * ws.length) xid l ws) := by
+      parse depth data = .ok (helloV ver (8 + (helloBody wss).length) xid wss) := by
   intro bs
-  obtain ⟨hem, hel⟩ := helloElem_encode 1 l ws (by omega)
-  have hto : (UInt16.ofNat (4 + 4 * ws.length)).toNat = 4 + 4 * ws.length := by
-    simp [UInt16.toNat_ofNat']; omega
-  have h8 : ((8 : UInt16) + sum16 [UInt16.ofNat (4 + 4 * ws.length)]).toNat = 12 + 4 * ws.length := by
-    have : sum16 [UInt16.ofNat (4 + 4 * ws.length)] = UInt16.ofNat (4 + 4 * ws.length) := by
-      simp [sum16]
-    rw [this, UInt16.toNat_add, hto]
+  obtain ⟨hml, hmm⟩ := hello_mapM2 wss hok
+  have hsum := body_sum wss hok
+  have h8 : ((8 : UInt16) + sum16 ((wss.map helloElemBytes).map (fun e => UInt16.ofNat e.length))).toNat
+      = 8 + (helloBody wss).length := by
+    rw [UInt16.toNat_add, sum16_toNat _ (by rw [hsum]; omega), hsum]
     have : (8 : UInt16).toNat = 8 := rfl
     rw [this]; omega
-  have hbl : bs.length = 12 + 4 * ws.length := by
-    simp only [bs, List.length_append, be16_length, be32_length, wordsBytes_length, List.length_cons, List.length_nil]
-    omega
+  have hbl : bs.length = 8 + (helloBody wss).length := by
+    simp only [bs, List.length_append, be16_length, be32_length, List.length_cons, List.length_nil]
   refine ⟨?_, ?_⟩
   · intro ln0
-    have hlenM : ∀ ln, Hello.lenM (helloV ver ln xid l ws) =
-        .ok ((8 : UInt16) + sum16 [UInt16.ofNat (4 + 4 * ws.length)], helloV ver ln xid l ws) := by
+    have hlenM : ∀ ln, Hello.lenM (helloV ver ln xid wss) =
+        .ok ((8 : UInt16) + sum16 ((wss.map helloElemBytes).map (fun e => UInt16.ofNat e.length)), helloV ver ln xid wss) := by
       intro ln
-      simp only [helloV, helloElemV, Hello.lenM, mapM2, HelloElem.lenM, V.kind, HelloElemVersionBitmap.lenM, hel,
-        Res.bind_ok, same, Res.pure_eq]
+      simp only [helloV, Hello.lenM, hml, Res.bind_ok]
     unfold Hello.marshalM
     rw [hlenM]
     simp only [Res.bind_ok]
     rw [hlenM]
-    simp only [Res.bind_ok, helloV, helloElemV, Header.setLength, Header.bytes, mapM2, HelloElem.marshalM, V.kind, hem,
-      Res.pure_eq, h8, List.map_cons, List.map_nil, V.u16]
-    have hp : piecesLen [pCopy ([n8 ver, n8 0] ++ be16 (n16 (12 + 4 * ws.length)) ++ be32 (n32 xid)),
-        pCopy (be16 (n16 1) ++ be16 (n16 l) ++ wordsBytes ws)] = 12 + 4 * ws.length := by
-      simp only [piecesLen, pCopy, Piece.adv, List.map_cons, List.map_nil, List.sum_cons, List.sum_nil, List.length_append,
-        be16_length, be32_length, wordsBytes_length, List.length_cons, List.length_nil]
-      omega
-    have := fill_exact' [pCopy ([n8 ver, n8 0] ++ be16 (n16 (12 + 4 * ws.length)) ++ be32 (n32 xid)),
-        pCopy (be16 (n16 1) ++ be16 (n16 l) ++ wordsBytes ws)]
-      (by intro p hp; simp only [List.mem_cons, List.not_mem_nil, or_false] at hp; rcases hp with rfl | rfl <;> trivial)
-    rw [hp] at this
+    have hu : V.u16 ((8 : UInt16) + sum16 ((wss.map helloElemBytes).map (fun e => UInt16.ofNat e.length)))
+        = .num (8 + (helloBody wss).length) := by simp only [V.u16, h8]
+    simp only [Res.bind_ok, helloV, Header.setLength, Header.bytes, hmm, h8, hu]
+    obtain ⟨p1, p2, p3⟩ := pieces_copy (wss.map helloElemBytes)
+    have hp : piecesLen (pCopy ([n8 ver, n8 0] ++ be16 (n16 (8 + (helloBody wss).length)) ++ be32 (n32 xid)) ::
+        (wss.map helloElemBytes).map pCopy) = 8 + (helloBody wss).length := by
+      simp only [piecesLen, List.map_cons, List.sum_cons] at p1 ⊢
+      rw [p1]; rfl
+    have hpb : piecesBytes (pCopy ([n8 ver, n8 0] ++ be16 (n16 (8 + (helloBody wss).length)) ++ be32 (n32 xid)) ::
+        (wss.map helloElemBytes).map pCopy) = bs := by
+      simp only [piecesBytes, List.map_cons, List.flatten_cons] at p2 ⊢
+      rw [p2]; rfl
+    have := fill_exact' (pCopy ([n8 ver, n8 0] ++ be16 (n16 (8 + (helloBody wss).length)) ++ be32 (n32 xid)) ::
+        (wss.map helloElemBytes).map pCopy)
+      (by intro p hp; simp only [List.mem_cons] at hp; rcases hp with rfl | hp; exact trivial; exact p3 p hp)
+    rw [hp, hpb] at this
     rw [this]
-    simp [piecesBytes, pCopy, Piece.bytes, bs]
+    rfl
   · intro depth data hd hb
-    have hlen : data.len = 12 + 4 * ws.length := by rw [← Slice.bytes_length data hd, hb, hbl]
-    have hb' : data.bytes = ([n8 ver, n8 0] ++ be16 (n16 (12 + 4 * ws.length)) ++ be32 (n32 xid)) ++
-        (be16 (n16 1) ++ be16 (n16 l) ++ wordsBytes ws) := by rw [hb]
-    obtain ⟨_, _, hdec⟩ := header_roundtrip ver 0 (12 + 4 * ws.length) xid hver (by decide) hk hxid
+    have hlen : data.len = 8 + (helloBody wss).length := by rw [← Slice.bytes_length data hd, hb, hbl]
+    have hb' : data.bytes = ([n8 ver, n8 0] ++ be16 (n16 (8 + (helloBody wss).length)) ++ be32 (n32 xid)) ++ helloBody wss := by
+      rw [hb]
+    obtain ⟨_, _, hdec⟩ := header_roundtrip ver 0 (8 + (helloBody wss).length) xid hver (by decide) hk hxid
     unfold parse
     obtain ⟨k, hk'⟩ : ∃ k, max depth (data.cap + 1) = k + 1 := ⟨max depth (data.cap + 1) - 1, by omega⟩
     rw [hk']
@@ -233,23 +367,13 @@ theorem hello_one_rt (ver xid l : Nat) (ws : List Nat) (hver : ver < 256) (hxid 
     obtain ⟨d0, h01, h02, _⟩ := Slice.fromR_bytes data 0 (by omega)
     have hd0 : d0.WF := (Slice.fromR_wf data hd 0 d0 h01).1
     have hh := hdec Header.zero d0 _ hd0 (by rw [h02, hb']; rfl)
-    obtain ⟨d8, h81, h82, _⟩ := Slice.fromR_bytes data 8 (by omega)
-    have hd8 : d8.WF := (Slice.fromR_wf data hd 8 d8 h81).1
-    have hd8b : d8.bytes = be16 (n16 1) ++ be16 (n16 l) ++ wordsBytes ws := by rw [h82, hb']; rfl
-    have hEH := helloElemHeader_unmarshal HelloElemHeader.new d8 hd8 1 l (by decide) hl (wordsBytes ws) hd8b
-    have hEV := helloElem_decode HelloElemVersionBitmap.new d8 hd8 1 l (by decide) hl ws hws hd8b
-    obtain ⟨_, hel'⟩ := helloElem_encode 1 l ws (by omega)
+    have hcnt := body_len_ge wss
+    obtain ⟨n, hloop⟩ := hello_loop data hd wss ([n8 ver, n8 0] ++ be16 (n16 (8 + (helloBody wss).length)) ++ be32 (n32 xid)) []
+      (data.len + 1) hb' hok hpad (by omega)
+    simp only [List.length_append, be16_length, be32_length, List.length_cons, List.length_nil, List.nil_append,
+      Nat.reduceAdd] at hloop
     simp only [h01, Res.bind_ok, hh]
-    -- the element loop: one iteration
-    obtain ⟨f, hf⟩ : ∃ f, data.len + 1 = f + 2 := ⟨data.len - 1, by omega⟩
-    rw [hf]
-    unfold goLoop
-    have hc1 : decide (8 < data.len) = true := by simp; omega
-    simp only [hc1, if_true, h81, Res.bind_ok, hEH, hEV, hel', Res.pure_eq, hto]
-    have hcur : ¬ (8 + (4 + 4 * ws.length) ≤ 8) := by omega
-    simp only [hcur, if_false]
-    unfold goLoop
-    have hc2 : decide (8 + (4 + 4 * ws.length) < data.len) = false := by simp; omega
-    simp only [hc2, Bool.false_eq_true, if_false, Res.bind_ok, List.nil_append, recoverR, helloV, helloElemV]
+    erw [hloop]
+    simp only [Res.bind_ok, Bool.false_eq_true, if_false, recoverR, Res.pure_eq, helloV]
 
 end OFV.RT
